@@ -3,6 +3,10 @@
 import json, sys
 
 CHECKS = {
+ "C03": ("differential runtime monitor: PotentialState::score vs exhaustive lattice sum over every image within cutoff + metamorphic re-descriptions of one crystal",
+         "Exploration: ~0.3M (quick) / ~19M (thorough) LJ states of all groups (circle, trimers) from strongly overlapping to dilute, each compared with an exhaustive per-molecule lattice sum (1e-9 of term magnitudes; 3% of the attractive sum for the uncut circle) and with equivalent descriptions (copy moved across a cell face, origin shifted by normaliser translations). One open known finding (images beyond the third shell inside the cutoff) is reported as KNOWN-FINDING and keyed by an oracle-computed predicate.",
+         "The pair kernel is the library's LJ2::energy (decided by C13), cross-checked against the independent law for like particles.",
+         "DESIGN.md 5 C03"),
  "C01": ("runtime monitor: library score vs exhaustive lattice-image overlap oracle on uniform, contact-bisected and optimiser-produced states (Spy) and CLI output files",
          "Exploration: ~6M (quick) / ~200M (thorough) states - uniform, boundary-focused states bisected to first contact and probed just inside it, every stage result and sampled evaluations of real optimiser pipelines observed through a Spy state, and the CLI's JSON files - are re-examined by an oracle that enumerates every lattice image that can be within reach (from cell heights) and measures penetration by separating axes / disc distance; witnesses are re-confirmed by polygon clipping. Held on the states produced; the thin failing region is sampled, not covered.",
          "Placements are read from cartesian_positions() (their correctness is C04/C14/C15). Convex polygons and unions of discs only.",
